@@ -1,15 +1,18 @@
 #!/bin/bash
 # Build the framework from files on disk only (offline): regenerate the Lean definitions from
-# /repo's working tree, then compile every model, lemma and property file.
+# /repo's working tree, then compile every model, lemma, property file and driver.
 set -u
 cd "$(dirname "$0")"
 /venv/bin/python tools/regen.py
 cd lean
-# a failing property module must not prevent the others from being built: build them one by one
-status=0
-lake build Ampverif 2>&1 | tail -5 || true
-for f in Ampverif/Props/*.lean; do
-  m=$(echo "${f%.lean}" | tr '/' '.')
-  lake build "$m" >/dev/null 2>&1 || { echo "setup: $m does not build (its check will report it)"; }
+# the whole library in one go (fast path) ...
+lake build Ampverif 2>&1 | tail -3 || true
+# ... then module by module, so that one failing module does not prevent the others from being built
+for dir in Model Lemmas Gen GenFloat Props Drivers; do
+  for f in Ampverif/$dir/*.lean; do
+    [ -e "$f" ] || continue
+    m=$(echo "${f%.lean}" | tr '/' '.')
+    lake build "$m" >/dev/null 2>&1 || echo "setup: $m does not build (its check will report it)"
+  done
 done
 exit 0
